@@ -4,6 +4,11 @@
 Usage:  cxx2v.py <unit-name> [...]      (units are described in units.json next to this file)
         see README.md for the interface, the supported subset and the representation of UB.
 
+Besides integer functions and methods over records of integer fields it translates functions that return such a
+record by value (local struct variable, member assignments, `return m;`), user-written constructors as functions
+from the constructor arguments to the record ("ctor"), and a `T const&` parameter that stands for the byte memory
+("memobj"); records may be imported from a required unit ("import_records").
+
 The translator NEVER guesses: any AST node, type or cast kind that is not in the supported subset raises
 Unsupported, which aborts the unit with a message naming the construct and its source location (exit 1).
 """
@@ -193,10 +198,14 @@ class Index:
             q = "::".join(path + [nm + ("<" + ", ".join(ta) + ">" if ta else "")])
             n["_qual"] = q
             n["_skip"] = skip
-            if k == "CXXMethodDecl":
+            if k in ("CXXMethodDecl", "CXXConstructorDecl"):
                 self.rec_of_method[n["id"]] = rec
             if has_body and not skip and k in ("FunctionDecl", "CXXMethodDecl"):
                 self.funcs.append((q, n["type"]["qualType"], n, rec if k == "CXXMethodDecl" else None))
+            elif has_body and not skip and k == "CXXConstructorDecl" and not n.get("isImplicit"):
+                # a user-written constructor can be listed like a function ("constructor as function"): it is
+                # translated to a function from its parameters to the record of the class
+                self.funcs.append((q, n["type"]["qualType"], n, rec))
             self._walk_any_children(n)
         else:
             self._walk_any_children(n)
@@ -276,6 +285,9 @@ class FnInfo:
         self.text = None         # emitted Coq text
         self.done = False
         self.in_progress = False
+        self.is_ctor = False     # a constructor translated as a function: parameters -> record of the class
+        self.ret_rec = None      # RecInfo of the returned record when the function returns a struct by value
+        self.memobj = None       # (parameter name, size in bytes) of the object the byte memory `mem` stands for
 
     def result_components(self):
         comps = []
@@ -289,25 +301,40 @@ class FnInfo:
         return comps
 
     def meta(self):
-        return {"coq": self.coq, "cxx": self.qual, "sig": self.sig, "sha256": self.sha,
-                "params": [{"name": n, "type": t.text, "mode": m} for (n, t, m) in self.params],
-                "ret": self.ret.text, "ret_kind": self.ret.kind, "record": self.rec.coq if self.rec else None,
-                "mutates_this": self.mutates, "needs_mem": self.needs_mem, "needs_fuel": self.needs_fuel,
-                "result": self.result_components(), "source": self.src}
+        m = {"coq": self.coq, "cxx": self.qual, "sig": self.sig, "sha256": self.sha,
+             "params": [{"name": n, "type": t.text, "mode": m} for (n, t, m) in self.params],
+             "ret": self.ret.text, "ret_kind": self.ret.kind, "record": self.rec.coq if self.rec else None,
+             "mutates_this": self.mutates, "needs_mem": self.needs_mem, "needs_fuel": self.needs_fuel,
+             "result": self.result_components(), "source": self.src}
+        # the keys below exist only for the function shapes that need them (older units keep their exact meta)
+        if self.is_ctor:
+            m["ctor"] = True
+        if self.ret_rec is not None:
+            m["ret_record"] = self.ret_rec.coq
+        if self.memobj is not None:
+            m["memobj"] = {"param": self.memobj[0], "size": self.memobj[1]}
+        return m
 
 
 class RecInfo:
-    def __init__(self, coq, qual, node):
+    def __init__(self, coq, qual, node, unit=None):
         self.coq, self.qual, self.node = coq, qual, node
+        self.unit = unit         # None: the Record is defined by this unit; else the required unit that defines it
         self.fields = []         # [(name, Ty, declid)]
         self.has_ptr = False
         self.atomic = set()      # decl ids of atomic<integral> members (modelled as plain fields)
 
+    def _q(self, s):
+        return "Gen_%s.%s" % (self.unit, s) if self.unit else s
+
+    def tyname(self):
+        return self._q(self.coq)
+
     def ctor(self):
-        return "mk_" + self.coq
+        return self._q("mk_" + self.coq)
 
     def proj(self, f):
-        return "%s_%s" % (self.coq, f)
+        return self._q("%s_%s" % (self.coq, f))
 
 
 class Unit:
@@ -379,6 +406,31 @@ class Unit:
                 raise Unsupported("record '%s' not found in the AST (candidates: %s)" % (q, cands[:8]))
             self.recs[q] = RecInfo(coq, q, node)
             self.recs_by_type[q] = self.recs[q]
+        # records defined by a required unit: {"<unit>": {"<class>": "<Coq record of that unit>"}}.  The class of this
+        # TU must have exactly the fields (names, types, order) the required unit recorded for its record; several
+        # classes may share one record (instantiations that differ only in constants).
+        for ru, classes in self.spec.get("import_records", {}).items():
+            if ru not in self.requires:
+                raise Unsupported("import_records: unit '%s' is not listed under \"requires\"" % ru)
+            rmeta = json.load(open(os.path.join(GEN, "Gen_%s.meta.json" % ru)))
+            for q, coq in classes.items():
+                node = self.idx.records.get(q)
+                if node is None:
+                    cands = [k for k in self.idx.records if k.split("<")[0] == q.split("<")[0]]
+                    raise Unsupported("record '%s' not found in the AST (candidates: %s)" % (q, cands[:8]))
+                if coq not in rmeta.get("records", {}):
+                    raise Unsupported("import_records: unit '%s' has no record '%s'" % (ru, coq))
+                if q in self.recs:
+                    raise Unsupported("record '%s' is listed twice" % q)
+                self.recs[q] = RecInfo(coq, q, node, unit=ru)
+                self.recs[q].expect = [(f["name"], f["type"]) for f in rmeta["records"][coq]["fields"]]
+                self.recs_by_type[q] = self.recs[q]
+                self.used_modules.add(ru)
+        local_names = [ri.coq for ri in self.recs.values() if ri.unit is None]
+        imported = set((ri.unit, ri.coq) for ri in self.recs.values() if ri.unit is not None)
+        if len(set(local_names)) != len(local_names) or len(set(c for _, c in imported)) != len(imported) or \
+                set(local_names) & set(c for _, c in imported):
+            raise Unsupported("two records of unit '%s' share a Coq name" % self.name)
         for ri in self.recs.values():
             for c in ri.node.get("inner", []):
                 if c.get("kind") == "FieldDecl":
@@ -396,6 +448,11 @@ class Unit:
                         ri.has_ptr = True
                     else:
                         ri.fields.append((c["name"], None, c["id"]))   # unsupported field: any access fails
+            if ri.unit is not None:
+                have = [(f, t.text) for (f, t, _) in ri.fields if t is not None]
+                if have != ri.expect:
+                    raise Unsupported("import_records: class '%s' has fields %s but record %s of unit '%s' has %s"
+                                      % (ri.qual, have, ri.coq, ri.unit, ri.expect))
         for f in self.spec["functions"]:
             cands = [(q, s, n, r) for (q, s, n, r) in self.idx.funcs if q == f["cxx"] and ("sig" not in f or s == f["sig"])]
             if len(cands) != 1:
@@ -492,6 +549,8 @@ class Unit:
         out.append("Local Open Scope cint_scope.")
         out.append("")
         for ri in self.recs.values():
+            if ri.unit is not None:
+                continue                  # defined by the required unit
             fs = [(f, t) for (f, t, _) in ri.fields if t is not None]
             out.append("(* %s%s *)" % (ri.qual, "   (pointer fields are indices into the byte list `mem`)" if ri.has_ptr else ""))
             out.append("Record %s := %s { %s }." % (ri.coq, ri.ctor(), "; ".join(
@@ -503,9 +562,16 @@ class Unit:
         return "\n".join(out)
 
     def meta(self):
-        return {"unit": self.name, "functions": [dict(fi.meta(), unit=self.name) for fi in self.order],
-                "records": {ri.coq: {"cxx": ri.qual, "fields": [{"name": f, "type": t.text} for (f, t, _) in ri.fields if t is not None]}
-                            for ri in self.recs.values()}}
+        recs = {}
+        for ri in self.recs.values():
+            if ri.unit is None:
+                recs[ri.coq] = {"cxx": ri.qual, "fields": [{"name": f, "type": t.text} for (f, t, _) in ri.fields if t is not None]}
+            else:
+                # a record of a required unit (possibly shared by several classes of this TU)
+                r = recs.setdefault(ri.coq, {"cxx": [], "unit": ri.unit,
+                                             "fields": [{"name": f, "type": t.text} for (f, t, _) in ri.fields if t is not None]})
+                r["cxx"].append(ri.qual)
+        return {"unit": self.name, "functions": [dict(fi.meta(), unit=self.name) for fi in self.order], "records": recs}
 
 
 class Var:
@@ -528,6 +594,8 @@ class FnTranslator:
         self.reads = set()
         self.loop_ctx = []       # stack of (k_break, k_continue)
         self.nloop = 0
+        self.recvars = {}        # decl id of a local struct variable -> (RecInfo, {field decl id -> key in self.vars})
+        self.guard = []
 
     # ---- names -------------------------------------------------------------------------------
 
@@ -564,9 +632,30 @@ class FnTranslator:
         fi.sha = hashlib.sha256(txt).hexdigest()
         fi.src = "%s:%s" % (os.path.relpath(f, REPO) if f.startswith(REPO) else f, line)
         ftype = n["type"]["qualType"]
-        is_method = n["kind"] == "CXXMethodDecl"
+        is_ctor = n["kind"] == "CXXConstructorDecl"
+        is_method = n["kind"] == "CXXMethodDecl" or is_ctor
         fi.is_static = (not is_method) or n.get("storageClass") == "static"
-        if is_method and not fi.is_static:
+        fi.is_ctor = is_ctor
+        if is_ctor:
+            # constructor as function: no `this` argument; the fields start uninitialised, the member-initialiser
+            # list assigns them in declaration order, the body runs, the result is the record
+            rq = None
+            for q, ri in u.recs.items():
+                if ri.node is fi.recnode:
+                    rq = ri
+            if rq is None:
+                raise Unsupported("%s is a constructor; give its class a Coq name under \"records\" (or \"import_records\") "
+                                  "in the unit list" % fi.qual)
+            if any(b.get("kind") == "CXXBaseSpecifier" for b in fi.recnode.get("inner", [])) or fi.recnode.get("bases"):
+                raise Unsupported("%s: constructor of a class with base classes" % fi.qual)
+            fi.rec = rq
+            fi.mutates = True
+            for (fname, t, did) in rq.fields:
+                if t is not None:
+                    self.declare(did, fname, t, "field", False)
+            if rq.has_ptr:
+                fi.needs_mem = True
+        elif is_method and not fi.is_static:
             rq = None
             for q, ri in u.recs.items():
                 if ri.node is fi.recnode:
@@ -586,15 +675,37 @@ class FnTranslator:
                 if rq.has_ptr:
                     fi.needs_mem = True
         inout = set(fi.spec.get("inout", []))
+        memobj = set(fi.spec.get("memobj", []))
         body = None
         rett = None
+        inits = []
+        self.guard = []
         for c in n.get("inner", []):
+            if c.get("kind") == "CXXCtorInitializer":
+                inits.append(c)
             if c.get("kind") == "ParmVarDecl":
                 t = u.ty(c)
                 nm = c.get("name")
                 if nm is None:
                     nm = "_unused%d" % len(fi.params)
-                if t.kind in ("int", "bool"):
+                if nm in memobj:
+                    # `T const& h` where the object h IS the byte memory `mem` of the generated code: the only
+                    # supported use is reinterpret_cast<uint8_t const*>( &h ), the pointer to byte 0.  The function
+                    # is defined only when `mem` has exactly sizeof(T) bytes.
+                    if fi.memobj is not None:
+                        self.bad(c, "two \"memobj\" parameters (there is one byte memory)")
+                    if t.kind != "ref":
+                        self.bad(c, "\"memobj\" parameter '%s' is not a reference" % nm)
+                    size = self.object_size(c, t.elem.text)
+                    v = Var(nm, t, "memobj")
+                    v.init = True
+                    v.size = size
+                    self.vars[c["id"]] = v
+                    fi.memobj = (nm, size)
+                    fi.needs_mem = True
+                    self.guard = ["_ <- (if Z.of_nat (length mem) =? %d then Some tt else None) ;;   "
+                                  "(* mem is the object `%s`, sizeof = %d *)" % (size, nm, size)]
+                elif t.kind in ("int", "bool"):
                     v = self.declare(c["id"], nm, t, "param", True)
                     fi.params.append((v.name, t, "val"))
                 elif t.kind in ("ptr", "ref") and t.elem.kind in ("int", "bool") and (t.kind == "ref" or nm in inout):
@@ -612,19 +723,34 @@ class FnTranslator:
                 body = c
         m = re.match(r"^(.*?)\s*\(", ftype)
         # return type: take it from the desugared function type when available
-        fi.ret = self.ret_type(n)
-        if fi.ret.kind not in ("int", "bool", "void"):
+        unknown = (memobj | inout) - set(c.get("name") for c in n.get("inner", []) if c.get("kind") == "ParmVarDecl")
+        if unknown:
+            self.bad(n, "\"inout\"/\"memobj\" names %s are not parameters" % sorted(unknown))
+        fi.ret = Ty("void", text="void") if is_ctor else self.ret_type(n)
+        if fi.ret.kind == "rec":
+            # a struct returned by value: a named record all of whose members are integers / bools / byte pointers
+            fi.ret_rec = u.recs_by_type[fi.ret.text]
+            for (fname, t, did) in fi.ret_rec.fields:
+                if t is None:
+                    self.bad(n, "returns '%s' by value, whose member '%s' has an unsupported type" % (fi.ret.text, fname))
+            if fi.ret_rec.has_ptr:
+                fi.needs_mem = True
+        elif fi.ret.kind not in ("int", "bool", "void"):
             self.bad(n, "unsupported return type '%s'" % fi.ret.text)
         self.rty = self.result_type()
-        code = self.stmts(body["inner"] if "inner" in body else [], self.k_fall_off)
+        pre_body = self.ctor_inits(inits) if is_ctor else []
+        if inits and not is_ctor:
+            self.bad(n, "member initialisers outside a constructor")
+        code = pre_body + self.stmts(body["inner"] if "inner" in body else [], self.k_fall_off)
+        code = self.guard + code
         # assemble
         hdr_params = []
         if fi.needs_fuel:
             hdr_params.append("(fuel : nat)")
         if fi.needs_mem:
             hdr_params.append("(mem : list Z)")
-        if fi.rec is not None:
-            hdr_params.append("(this : %s)" % fi.rec.coq)
+        if fi.rec is not None and not is_ctor:
+            hdr_params.append("(this : %s)" % fi.rec.tyname())
         for (nm, t, mode) in fi.params:
             hdr_params.append("(%s : %s)" % (nm, "bool" if t.kind == "bool" else "Z"))
         rty = self.rty
@@ -635,7 +761,7 @@ class FnTranslator:
         out += self.loops
         out.append("Definition %s %s : option (%s) :=" % (fi.coq, " ".join(hdr_params), rty))
         pro = []
-        if fi.rec is not None:
+        if fi.rec is not None and not is_ctor:
             for (fname, t, did) in fi.rec.fields:
                 if t is not None:
                     pro.append("let %s := %s this in" % (self.vars[did].name, fi.rec.proj(fname)))
@@ -649,9 +775,9 @@ class FnTranslator:
         comps = []
         for cpt in fi.result_components():
             if cpt == "ret":
-                comps.append("bool" if fi.ret.kind == "bool" else "Z")
+                comps.append(fi.ret_rec.tyname() if fi.ret.kind == "rec" else "bool" if fi.ret.kind == "bool" else "Z")
             elif cpt == "this":
-                comps.append(fi.rec.coq)
+                comps.append(fi.rec.tyname())
             else:
                 nm = cpt.split(":")[1]
                 t = [t for (pn, t, mode) in fi.params if pn == nm][0]
@@ -701,7 +827,71 @@ class FnTranslator:
 
     def this_value(self):
         ri = self.fi.rec
+        for (f, t, did) in ri.fields:
+            if self.fi.is_ctor and t is None:
+                raise Unsupported("%s: constructor of a class whose member '%s' has an unsupported type" % (self.fi.qual, f))
+            if t is not None and not self.vars[did].init:
+                raise Unsupported("%s: member '%s' is not initialised when the object is used / returned" % (self.fi.qual, f))
         return "(%s %s)" % (ri.ctor(), " ".join(self.vars[did].name for (f, t, did) in ri.fields if t is not None))
+
+    def object_size(self, at, tname):
+        """sizeof of the object a "memobj" parameter refers to: a struct/class made of bytes only (no padding)."""
+        q = strip_cv(tname)
+        node = self.u.idx.records.get(q)
+        if node is None and "::" in q and self.fi.recnode is not None:
+            # a member typedef of the class (e.g. split_bitstring<...>::bitstring)
+            last = q.split("::")[-1]
+            for c in self.fi.recnode.get("inner", []):
+                if c.get("kind") in ("TypedefDecl", "TypeAliasDecl") and c.get("name") == last:
+                    tq = strip_cv(c["type"].get("desugaredQualType", c["type"]["qualType"]))
+                    node = self.u.idx.records.get(tq)
+        if node is None:
+            self.bad(at, "\"memobj\" parameter of type '%s': not a struct defined in the translation unit" % tname)
+        if node.get("tagUsed") not in ("struct", "class") or node.get("bases") or \
+                not node.get("definitionData", {}).get("isTriviallyCopyable"):
+            self.bad(at, "\"memobj\" type '%s' is not a trivially copyable struct without bases" % tname)
+        size = 0
+        for c in node.get("inner", []):
+            if c.get("kind") != "FieldDecl":
+                continue
+            tq = strip_cv(c["type"].get("desugaredQualType", c["type"]["qualType"]))
+            m = re.match(r"^(.*?)\s*\[(\d+)\]$", tq)
+            et = self.u.ty_of_str(m.group(1) if m else tq)
+            if et.kind != "int" or et.bits != 8 or c.get("isBitfield"):
+                self.bad(at, "\"memobj\" type '%s': member '%s' is not a byte or an array of bytes (sizeof is computed "
+                             "as the sum of the members)" % (tname, c.get("name")))
+            size += int(m.group(2)) if m else 1
+        if size == 0:
+            self.bad(at, "\"memobj\" type '%s' has no members" % tname)
+        return size
+
+    def ctor_inits(self, inits):
+        """Member-initialiser list of a constructor: one `let field := e in` per member, in the order the AST lists
+        them, which must be the declaration order of the members (the order of execution)."""
+        ri = self.fi.rec
+        order = {did: i for i, (f, t, did) in enumerate(ri.fields)}
+        out, last = [], -1
+        for ci in inits:
+            tgt = ci.get("anyInit")
+            if not tgt or tgt.get("kind") != "FieldDecl" or tgt.get("id") not in order:
+                self.bad(ci, "constructor initialiser that is not a member of the class (base class / delegating constructor)")
+            did = tgt["id"]
+            if order[did] <= last:
+                self.bad(ci, "member initialisers are not listed in declaration order")
+            last = order[did]
+            if did not in self.vars:
+                self.bad(ci, "constructor initialises member '%s', whose type is not supported" % tgt.get("name"))
+            es = [c for c in ci.get("inner", []) if "valueCategory" in c]
+            if len(es) != 1:
+                self.bad(ci, "member initialiser without exactly one expression")
+            et = self.u.ty(es[0])
+            if not et.same(self.vars[did].ty):
+                self.bad(ci, "member '%s' of type '%s' initialised from an expression of type '%s'"
+                         % (tgt.get("name"), self.vars[did].ty.text, et.text))
+            pre, term = self.full_expr(es[0])
+            out += pre + ["let %s := %s in" % (self.vars[did].name, term)]
+            self.vars[did].init = True
+        return out
 
     def result(self, retval):
         r = self.result_tuple(retval)
@@ -757,6 +947,8 @@ class FnTranslator:
             if base.get("kind") == "CXXThisExpr":
                 did = e.get("referencedMemberDecl")
                 return did if did in self.vars else None
+            if base.get("kind") == "DeclRefExpr" and base["referencedDecl"]["id"] in self.recvars and not e.get("isArrow"):
+                return self.recvars[base["referencedDecl"]["id"]][1].get(e.get("referencedMemberDecl"))
             return None
         if k == "UnaryOperator" and e.get("opcode") == "*":
             op = e["inner"][0]
@@ -886,6 +1078,12 @@ class FnTranslator:
             if not s.get("inner"):
                 return [self.result(None)]
             e = s["inner"][0]
+            if self.fi.ret.kind == "rec":
+                saved, savedr = self.pre, self.reads
+                self.pre, self.reads = [], set()
+                t = self.record_value(e)
+                self.pre, self.reads = saved, savedr
+                return [self.result(t)]
             # `return [casts] (c ? a : b)` is translated as `if (c) return [casts] a; else return [casts] b;`
             x, wrappers = e, []
             while x.get("kind") in ("ParenExpr", "ImplicitCastExpr", "CStyleCastExpr", "CXXStaticCastExpr", "CXXFunctionalCastExpr") \
@@ -1035,6 +1233,8 @@ class FnTranslator:
             self.vars[d["id"]] = v
             return []
         t = self.u.ty(d)
+        if t.kind == "rec":
+            return self.decl_record(d, t)
         if t.kind not in ("int", "bool") and not (t.kind == "ptr" and t.elem.kind == "int" and t.elem.bits == 8):
             self.bad(d, "local variable '%s' of unsupported type '%s'" % (d.get("name"), t.text))
         init = [c for c in d.get("inner", []) if "valueCategory" in c]
@@ -1046,6 +1246,67 @@ class FnTranslator:
         pre, term = self.full_expr(init[0])
         v = self.declare(d["id"], d["name"], t, "local", True)
         return pre + ["let %s := %s in" % (v.name, term)]
+
+    def decl_record(self, d, t):
+        """`T m;` for a named record T with a trivial default constructor: one variable per member, all
+        uninitialised (reading a member before it is assigned is an error, as for scalars)."""
+        ri = self.u.recs_by_type[t.text]
+        if d.get("storageClass") == "static":
+            self.bad(d, "static local variable")
+        dd = ri.node.get("definitionData", {})
+        init = [c for c in d.get("inner", []) if "valueCategory" in c]
+        ok = len(init) == 1 and init[0].get("kind") == "CXXConstructExpr" and not init[0].get("inner") \
+            and not init[0].get("zeroing") and not init[0].get("list") and not init[0].get("initializer_list") \
+            and d.get("init") == "call" and dd.get("defaultCtor", {}).get("trivial") is True
+        if not ok:
+            self.bad(d, "local struct variable '%s': only default initialisation `T %s;` of a struct with a trivial "
+                        "default constructor is supported" % (d.get("name"), d.get("name")))
+        keys = {}
+        for (fname, ft, fdid) in ri.fields:
+            if ft is None:
+                self.bad(d, "local struct variable '%s': member '%s' has an unsupported type" % (d.get("name"), fname))
+            key = "%s.%s" % (d["id"], fdid)
+            self.declare(key, "%s_%s" % (d["name"], fname), ft, "local", False)
+            keys[fdid] = key
+        self.recvars[d["id"]] = (ri, keys)
+        return []
+
+    def recvar_of(self, e):
+        """decl id of the local struct variable an expression denotes (through parentheses / no-op casts), or None."""
+        x = e
+        while x.get("kind") in ("ParenExpr", "ImplicitCastExpr") and x.get("castKind", "NoOp") == "NoOp":
+            x = x["inner"][0]
+        if x.get("kind") == "DeclRefExpr" and x["referencedDecl"]["id"] in self.recvars:
+            return x["referencedDecl"]["id"]
+        return None
+
+    def record_value(self, e):
+        """`return m;` for a local struct variable m of the function's return type: the record built from m's members.
+        The copy/move constructor clang inserts must be the trivial one."""
+        x = e
+        while x.get("kind") in ("ExprWithCleanups", "ParenExpr", "MaterializeTemporaryExpr", "CXXBindTemporaryExpr") or \
+                (x.get("kind") == "ImplicitCastExpr" and x.get("castKind") == "NoOp"):
+            x = x["inner"][0]
+        ri = self.fi.ret_rec
+        dd = ri.node.get("definitionData", {})
+        if x.get("kind") == "CXXConstructExpr" and len(x.get("inner", [])) == 1:
+            ct = x.get("ctorType", {}).get("qualType", "")
+            if not (dd.get("copyCtor", {}).get("trivial") is True and dd.get("moveCtor", {"trivial": True}).get("trivial") is True
+                    and re.match(r"^void \((const )?.*(&|&&)\)( noexcept)?$", ct)):
+                self.bad(e, "returning a struct through a non-trivial copy/move constructor")
+            x = x["inner"][0]
+        vid = self.recvar_of(x)
+        if vid is None:
+            self.bad(e, "a struct-returning function may only `return m;` for a local struct variable m")
+        vri, keys = self.recvars[vid]
+        if vri is not ri:
+            self.bad(e, "returned variable is not of the function's return type")
+        names = []
+        for (fname, ft, fdid) in ri.fields:
+            if not self.vars[keys[fdid]].init:
+                self.bad(e, "member '%s' of the returned struct is not initialised" % fname)
+            names.append(self.read_var(keys[fdid], e))
+        return "(%s %s)" % (ri.ctor(), " ".join(names))
 
     def const_eval(self, e, ty=None):
         k = e.get("kind")
@@ -1096,6 +1357,8 @@ class FnTranslator:
 
     def read_var(self, did, e):
         v = self.vars[did]
+        if v.kind == "memobj":
+            self.bad(e, "use of the \"memobj\" parameter '%s' other than reinterpret_cast<uint8_t const*>( &%s )" % (v.name, v.name))
         if not v.init:
             self.bad(e, "variable '%s' is read before it is initialised" % v.name)
         self.reads.add(did)
@@ -1103,8 +1366,8 @@ class FnTranslator:
 
     def assign(self, did, term, e):
         v = self.vars[did]
-        if v.kind == "table":
-            self.bad(e, "assignment to a constant table")
+        if v.kind in ("table", "memobj"):
+            self.bad(e, "assignment to a constant table / \"memobj\" parameter")
         self.pre.append(("let", v.name, term))
         v.init = True
         self.effects += 1
@@ -1153,6 +1416,23 @@ class FnTranslator:
             return lit(self.sizeof(e))
         if k in ("ImplicitCastExpr", "CStyleCastExpr", "CXXStaticCastExpr", "CXXFunctionalCastExpr"):
             return self.cast_expr(e, stmt)
+        if k == "CXXReinterpretCastExpr" and e.get("castKind") == "BitCast":
+            # reinterpret_cast<uint8_t const*>( &h ) for the "memobj" parameter h: the pointer to byte 0 of `mem`
+            t = self.u.ty(e)
+            x = e["inner"][-1]
+            while x.get("kind") == "ParenExpr":
+                x = x["inner"][0]
+            if t.kind == "ptr" and t.elem.kind == "int" and t.elem.bits == 8 and not t.elem.signed and \
+                    x.get("kind") == "UnaryOperator" and x.get("opcode") == "&":
+                y = x["inner"][0]
+                while y.get("kind") == "ParenExpr":
+                    y = y["inner"][0]
+                if y.get("kind") == "DeclRefExpr":
+                    v = self.vars.get(y["referencedDecl"]["id"])
+                    if v is not None and v.kind == "memobj":
+                        self.fi.needs_mem = True
+                        return "0"
+            self.bad(e, "reinterpret_cast to a pointer (only reinterpret_cast<uint8_t const*>( &h ) of a \"memobj\" parameter h)")
         if k == "DeclRefExpr":
             # a prvalue reference to an enumerator / constant
             self.bad(e, "reference to '%s' outside an lvalue-to-rvalue conversion" % e.get("referencedDecl", {}).get("name"))
@@ -1534,6 +1814,8 @@ class FnTranslator:
                 self.check_stateless_temporary(args[0], declid, e)
                 args = args[1:]
         m, coqname = self.u.callee(declid, e)
+        if m.get("ctor") or m.get("ret_kind") == "rec" or m.get("memobj"):
+            self.bad(e, "call of a constructor / struct-returning function / function over a \"memobj\" from translated code")
         if k == "CXXOperatorCallExpr" and m["record"] is not None:
             self.bad(e, "operator call on an object with state")
         argv = []
@@ -1624,6 +1906,8 @@ class FnTranslator:
             did = n["referencedDecl"]["id"]
             if did in self.vars:
                 acc.add(did)
+            if did in self.recvars:
+                acc.update(self.recvars[did][1].values())
         elif k == "MemberExpr":
             did = n.get("referencedMemberDecl")
             if did in self.vars:
